@@ -309,7 +309,10 @@ class stems_entries:
         {"when": "after", "at": "entries = [", "loop": 0, "label": "new-run-maximal",
          "do": ["assert not (entry.index_ >= 2 and self.entries[entry.index_ - 2].pair == entry.pair + 1)"]},
         {"when": "before", "at": "if entries:", "label": "open-run-maximal",
-         "do": ["assert implies(len(entries) > 0, not (after(entries) < len(self.entries) and qual(self.entries[after(entries)])))"]},
+         "do": ["assert implies(len(entries) > 0, not (after(entries) < len(self.entries) and qual(self.entries[after(entries)])))",
+                # the facts about the open run that `stems_ok` of the final list needs, stated once before it is appended
+                "assert implies(len(entries) > 0, entries[len(entries) - 1].index_ == after(entries) and entries[len(entries) - 1].pair == entries[0].pair - len(entries) + 1)",
+                "assert implies(len(entries) > 0, 1 <= entries[0].index_ and entries[0].index_ + len(entries) - 1 < entries[0].pair - len(entries) + 1 and entries[0].pair <= len(self.entries))"]},
     ]
 
 
